@@ -554,6 +554,27 @@ def stepPipe (s : State) (w : List String) : State × String :=
       | some (s', o, _, _, _) => (s', showReply o)
       | none => (s, "bad-op")
     | _, _ => (s, "bad-op")
+  | ["pipe", "dkey", route, ids, cl] =>
+    match parseIdent ids, parseScope cl with
+    | some i, some client =>
+      match runRequest s route i client with
+      | some (s', o, p, cs, _) =>
+        let dk := match o with
+          | MsgReply.miss => hex16 (dedupKey H s.fs.get p i.qtype i.qclass i.cd cs)
+          | _ => "-"
+        (s', showReply o ++ " dk=" ++ dk)
+      | none => (s, "bad-op")
+    | _, _ => (s, "bad-op")
+  | ["pipe", "rkey", ids] =>
+    match parseIdent ids with
+    | some i =>
+      match i.name.presentation with
+      | some p =>
+        match retryKey H s.fs.get p i.qtype i.qclass i.cd i.scope with
+        | some k => (s, hex16 k)
+        | none => (s, "-")
+      | none => (s, "bad-op")
+    | none => (s, "bad-op")
   | ["pipe", "lbkv", spec, ids] =>
     match parseIdent ids with
     | some i =>
